@@ -35,7 +35,8 @@ CLAIMED = {
     "C04": ("Bfs, BfsDist and BfsDist::distances over every digraph on 4 vertices and every source set (16 symbolic bits; 5 vertices "
             "thorough): each reachable vertex once, no other, non-decreasing and exact hop distances, MAX exactly at unreachable "
             "vertices.",
-            "Generic code over an array digraph implementing graaf's public traits (not the five representations); deque/Vec models.",
+            "Generic code over an array digraph implementing graaf's public traits; thorough also BfsDist through the real "
+            "AdjacencyList / AdjacencyMap / AdjacencyMatrix / EdgeList at order 3; deque/Vec models.",
             "DESIGN.md §3 C04"),
     "C05": ("BfsPred::predecessors over all digraphs on 4 vertices x all source sets and shortest_path over all digraphs on 3 "
             "vertices x all source sets x all target predicates: tree condition against oracle hop distances, None iff no reachable "
@@ -46,7 +47,8 @@ CLAIMED = {
     "C06": ("Dfs, DfsDist, DfsPred over every digraph on 3 vertices x every source set (4 vertices thorough): each vertex at most "
             "once, only reachable ones, depth-first preorder / predecessor / depth against a harness-side search path. The known "
             "truncation defect is isolated by its own assertion (KNOWN-FINDING); all other assertions stay armed.",
-            "Runs in which the known defect manifests are cut at that point; widened fields stack/visited; array digraph.",
+            "Runs in which the known defect manifests are cut at that point; widened fields stack/visited; array digraph "
+            "(thorough also the real AdjacencyList).",
             "DESIGN.md §3 C06, §5"),
     "C07": ("BellmanFordMoore over every digraph on 3 vertices with <= 3 and <= 4 arcs (arc counts 0..4: every residue of the "
             "4x-unrolled loop), weights -2..2, every source: None iff a negative circuit is reachable, else exact distances; also "
